@@ -127,7 +127,7 @@ func (w *world) signable(h, r int64, s int8, b string) (vote *types.Vote, prop *
 // recOf maps Last* fields onto a spec record.
 func (w *world) recOf(h, r int64, s int8, sb []byte, sig crypto.Signature) rec {
 	x := rec{H: h, R: r, S: s, B: "?"}
-	if sb == nil {
+	if len(sb) == 0 {
 		if sig == nil {
 			x.B = "none"
 		} else {
@@ -163,6 +163,21 @@ func (w *world) fileRec(path string) rec {
 	if _, err := os.Stat(path); os.IsNotExist(err) {
 		return rec{-1, -1, -1, "nofile"}
 	}
+	raw, _ := ioutil.ReadFile(path)
+	ck := fmt.Sprintf("%d|%v|%s", w.ti%7, w.blocks, raw)
+	if x, ok := parseCache[ck]; ok {
+		return x
+	}
+	x := w.parseFile(path)
+	if len(parseCache) < 20000 {
+		parseCache[ck] = x
+	}
+	return x
+}
+
+var parseCache = map[string]rec{}
+
+func (w *world) parseFile(path string) rec {
 	var pv *types.PrivValidator
 	var err error
 	if p, _ := mbt.Catch(func() { pv, err = types.LoadPrivValidator(path) }); p != nil || err != nil || pv == nil {
